@@ -41,10 +41,10 @@ class _File:
         self.sink.append(s)
 
 
-def _model(eng, focus, name_len, res_len):
+def _model(eng, focus, name_len, res_len, serial_max=10 ** 7 - 1):
     m = dict(DEFAULTS)
     if "serial" in focus:
-        m["serial"] = eng.int("serial", 1, 10 ** 7 - 1)
+        m["serial"] = eng.int("serial", 1, serial_max)
     if "res_seq" in focus:
         m["res_seq"] = eng.int("res_seq", -9999, 99999)
     for k in ("x", "y", "z"):
@@ -165,10 +165,10 @@ def _compare(m, rtype, kc, got, ins_expected=True):
     return And(*conds)
 
 
-def h_roundtrip(eng, focus, rtype, ws, kc, name_len=2, res_len=3):
+def h_roundtrip(eng, focus, rtype, ws, kc, name_len=2, res_len=3, serial_max=10 ** 7 - 1):
     from pdb2pqr import io, main, structures
 
-    m = _model(eng, focus, name_len, res_len)
+    m = _model(eng, focus, name_len, res_len, serial_max)
     atom = structures.Atom(type_=rtype)
     atom.serial, atom.name, atom.res_name = m["serial"], m["name"], m["res_name"]
     atom.chain_id, atom.res_seq, atom.ins_code = m["chain"], m["res_seq"], m["ins"]
